@@ -10,6 +10,7 @@
 //! = harness error / abort.
 
 mod corpus;
+mod deep;
 mod fw;
 mod gen;
 mod json;
@@ -30,6 +31,11 @@ fn usage() -> ! {
 
 fn main() {
     let args: Vec<String> = std::env::args().collect();
+    if args.len() == 4 && args[1] == "deep" {
+        // child side of a deep-structure probe (see deep.rs)
+        let n: usize = args[3].parse().unwrap_or_else(|_| usage());
+        deep::child_main(&args[2], n);
+    }
     if args.len() < 8 || args[1] != "run" {
         usage();
     }
